@@ -6,7 +6,8 @@
    RecoverPlain (e2fsck's own search, for every <<block size, blocks per group>> of Geos).                           *)
 EXTENDS Backups
 CONSTANTS Dpbs, ResizeSet, MaxSteps,
-          Geos            \* set of <<block size, blocks per group>> pairs mke2fs may be asked for
+          Geos,           \* set of <<block size, blocks per group>> pairs mke2fs may be asked for
+          GdOnly          \* BOOLEAN: also explore the loss of the primary descriptors alone (superblock intact)
 \* every block size of the format with its default group size + a non-default group size at both ends
 AllGeos == {<<bs, DefaultBpg(bs)>> : bs \in BlockSizes} \cup {<<MinBlockSize, 256>>, <<MaxBlockSize, 256>>}
 OneGeo == {<<MinBlockSize, DefaultBpg(MinBlockSize)>>}                         \* the geometry dimension switched off (1k blocks, 8192 per group)
@@ -40,9 +41,11 @@ Next == \/ DoMkfs
         \/ Alive /\ steps < MaxSteps /\ GdSane /\ last # "env" /\ (DoResize \/ DoResize64 \/ DoTuneFeat \/ DoTuneUUID \/ DoTuneISize)
         \/ Alive /\ steps < MaxSteps /\ GdSane /\ DoEnv
         \/ Alive /\ steps < MaxSteps /\ DoFsck
-        \/ DestroyPrimary
+        \/ DestroyPrimary(TRUE)
+        \/ GdOnly /\ DestroyPrimary(FALSE)
         \/ \E g \in 1..MaxG : RecoverFrom(g)
         \/ RecoverPlain
+        \/ RecoverPlainGd
 Spec == Init /\ [][Next]_vars
 ASSUME BackupsClosedForm
 \* block arithmetic: the block `e2fsck -b` is given for group g, and the position get_backup_sb probes for a listed group
